@@ -226,11 +226,12 @@ fn variant(kind: Kind, rng: &mut Rng) -> Params {
 pub fn run(ctx: &Ctx) -> Report {
     let njobs = ctx.pick(9600, 144000);
     let seed = ctx.seed;
-    let maxlen = ctx.pick(4000usize, 15000usize);
+    let maxlen = ctx.pick(12000usize, 40000usize);
     let jobs: Vec<usize> = (0..njobs).collect();
     let mut rep = par_run(jobs, ctx.threads, move |idx, rep| {
         let mut rng = Rng::derive(seed, 0xC15, *idx as u64);
-        let len = rng.range(30, maxlen);
+        // one stream in 200 runs past 2^16 inputs (maintenance branches of the parts or of the composite)
+        let len = if idx % 200 == 7 { 70_000 } else { rng.range(30, maxlen) };
         let bars = idx % 2 == 1;
         let inputs: Vec<In> = if bars {
             let base = *rng.pick(&[1e-2, 1.0, 50.0, 1e4]);
